@@ -110,6 +110,43 @@ theorem state_moves_only_forward (s : St) (op : Op) (hinv : Inv s.served s.store
     simp only [Option.map_some, hrec]
     exact h
 
+theorem stored_of_obs (s : St) (id : Nat) (a' : C14.DRec) (h : get (obsOf s).stored id = some a') :
+    ∃ m, get s.stored id = some m ∧ a'.rec_ = recOf m := by
+  rw [get_obs_stored] at h
+  cases hm : get s.stored id with
+  | none => rw [hm] at h; cases h
+  | some m => rw [hm] at h; cases h; exact ⟨m, rfl, rfl⟩
+
+/-- **stored_moves_only_forward.** The stored record of a store changes across any operation (a restart
+    included) only as the served one may: a stored tombstone is never overwritten by another state and a
+    stored record is deleted only as a tombstone – so a new leader, which serves what is stored, cannot
+    bring a tombstone back. -/
+theorem stored_moves_only_forward (s : St) (op : Op) (hinv : Inv s.served s.stored) :
+    C14.StoredForward (stepOf s op) := by
+  intro id a' ha'
+  obtain ⟨m, hm, hrec⟩ := stored_of_obs s id a' ha'
+  have hg := good_step' s op hinv
+  rw [hinv.durable id] at hm
+  cases ha : get s.served id with
+  | none => rw [ha] at hm; cases hm
+  | some a =>
+    rw [ha] at hm
+    have hma : a.md = m := by simpa using hm
+    have h := hg.fwd id a ha
+    show match get (obsOf (step s op).st).stored id with
+      | some b => C14.fwd a'.rec_ b.rec_ = true
+      | none => a'.rec_.state = .tombstone
+    rw [get_obs_stored, hg.inv.durable id]
+    cases hb : get (step s op).st.served id with
+    | none =>
+      rw [hb] at h
+      simp only [Option.map_none, hrec, ← hma, recOf]
+      exact (lifeOf_tomb _).2 h
+    | some b =>
+      rw [hb] at h
+      simp only [Option.map_some, hrec, ← hma]
+      exact h
+
 /-- **tombstone_refused_at_rpc.** A gRPC PutStore or StoreHeartbeat for a store that is served as
     tombstone is answered with the tombstone error and changes neither the served nor the stored state. -/
 theorem tombstone_refused_at_rpc (s : St) (op : Op) : C14.TombstoneRefused (stepOf s op) := by
@@ -141,6 +178,7 @@ theorem tombstone_refused_at_rpc (s : St) (op : Op) : C14.TombstoneRefused (step
   | region r st => simp [stepOf, kindOf, C14.targetOf] at hk
   | labelsFrom r f mask => simp [stepOf, kindOf, C14.targetOf] at hk
   | checkOnly o mask => simp [stepOf, kindOf, C14.targetOf] at hk
+  | restart => simp [stepOf, kindOf, C14.targetOf] at hk
 
 /-- **bury_only_empty.** Whenever an operation other than the direct call of `buryStore` turns a
     store into a tombstone, the store held no region peer when the operation started. -/
@@ -236,6 +274,7 @@ theorem success_stored_eq_served (s : St) (op : Op) (hinv : Inv s.served s.store
     | region r st => simp [stepOf, kindOf] at hk
     | labelsFrom r f mask => simp [stepOf, kindOf] at hk
     | checkOnly o mask => simp [stepOf, kindOf] at hk
+    | restart => simp [stepOf, kindOf] at hk
 
 /-- **failed_write_served_unchanged.** The served record and weights of a store whose write the
     storage refused are what they were before the operation; and an operation (other than the
@@ -275,7 +314,7 @@ theorem destroyed_never_returns (s : St) (id mask : Nat) (sv : Served) (h : get 
 
 /-- one operation from a state satisfying the invariant is observed as the property demands -/
 theorem C14_step (s : St) (op : Op) (hinv : Inv s.served s.stored) : C14.StepOk (stepOf s op) :=
-  ⟨rfl, state_moves_only_forward s op hinv, tombstone_refused_at_rpc s op, bury_only_empty s op hinv,
+  ⟨rfl, state_moves_only_forward s op hinv, stored_moves_only_forward s op hinv, tombstone_refused_at_rpc s op, bury_only_empty s op hinv,
    live_addresses_unique s op hinv, success_stored_eq_served s op hinv, failed_write_served_unchanged s op hinv⟩
 
 /-- the invariant (stored = served, live addresses unique) holds in every reachable state -/
